@@ -167,10 +167,10 @@ impl<V: fmt::Debug + Clone, T: MapView<Value = V> + Clone> MapView for PrefixedM
     }
 
     fn keys(&self) -> Vec<Identifier> {
+        // every key of the underlying map is visible, with the prefix added
         self.0
             .keys()
             .into_iter()
-            .filter(|key| key.as_str().starts_with(&self.1))
             .map(|key| Identifier::from(format!("{}{}", self.1, key)))
             .collect()
     }
